@@ -83,6 +83,14 @@ def run(ctx, div=True):
         cnt = pct = None
         if isinstance(cell, ast.Call) and call_name(cell) == '_format_statistic' and len(cell.args) == 2:
             cnt, pct = cell.args
+        else:
+            # the formatting helper inlined: '<count> (<percent>%)' built from two str(..) pieces
+            strs = [c_ for c_ in ast.walk(cell) if isinstance(c_, ast.Call) and isinstance(c_.func, ast.Name) and c_.func.id == 'str'
+                    and len(c_.args) == 1]
+            strs.sort(key=lambda c_: (getattr(c_, 'lineno', 0), getattr(c_, 'col_offset', 0)))
+            top = [c_ for c_ in strs if not any(c_ is not o and any(x is c_ for x in ast.walk(o)) for o in strs)]
+            if len(top) == 2:
+                cnt, pct = top[0].args[0], top[1].args[0]
         ok = cnt is not None and (U(cnt) == ref or U(cnt) in alts)
         ctx.check('R-PROF/count', f, label, ok,
                   "'%s' shows `%s`, expected %s of the profiled attribute" % (label, U(cnt)[:80] if cnt is not None else U(cell)[:80], ref), ap,
@@ -159,7 +167,7 @@ def run(ctx, div=True):
     # ---- comment predicates
     conds = Conds(f.node, lambda e, st: view.expand(e, st))
     cstores = [n for n in ast.walk(lp) if isinstance(n, ast.Assign) and isinstance(n.targets[0], ast.Name)
-               and U(cells[3]) == n.targets[0].id]
+               and isinstance(cells[3], ast.Name) and cells[3].id == n.targets[0].id]
     key_st = [n for n in cstores if isinstance(n.value, ast.Constant) and isinstance(n.value.value, str) and 'key' in n.value.value]
     warn_st = [n for n in cstores if 'ignore' in U(n.value)]
     uqx, msx = stats
